@@ -558,6 +558,25 @@ pub fn gen_c13(rng: &mut Rng, thorough: bool, run_index: u64) -> WorldTrace {
         let a = if rng.chance(1, 2) { vec!["ws".to_string()] } else { file_args(rng) };
         variants.push(base("parts", entry, a, rng));
     }
+    if files.len() >= 2 && rng.chance(1, 3) {
+        // the same files spread over two sub-directories: naming every file must be equivalent to
+        // naming the directories (in any mixture and order)
+        let mut spread = files.clone();
+        spread_over_directories(rng, &mut spread);
+        if spread.iter().any(|f| f.name.contains('/')) {
+            let mut listed: Vec<String> = spread.iter().map(|f| format!("ws/{}", f.name)).collect();
+            rng.shuffle(&mut listed);
+            let mut v = base("files2", Entry::Check, listed, rng);
+            v.files = spread.clone();
+            variants.push(v);
+            for entry in [Entry::Check, Entry::Echo, Entry::Tokenize] {
+                let a = present(rng, &spread);
+                let mut v = base(if entry == Entry::Check { "mix2" } else { "parts" }, entry, a, rng);
+                v.files = spread.clone();
+                variants.push(v);
+            }
+        }
+    }
     // fault-injecting part (separate from the fault-free variants above)
     let nfault = if thorough { 6 } else { 3 };
     for _ in 0..nfault {
@@ -690,6 +709,18 @@ fn oracle_c13(t: &WorldTrace, obs: &[Obs], stats: &mut Stats) -> Vec<Violation> 
             }
         }
     }
+    if let Some((_, reference)) = find("files2").first() {
+        for (v, o) in find("mix2") {
+            stats.count("c13.dirs_vs_files_comparisons");
+            if outcome_word(&reference.outcome) != outcome_word(&o.outcome) || (single_fault && reference.codes() != o.codes()) {
+                out.push(viol(
+                    "C13",
+                    format!("C13/directories-differ-from-files/{kind}"),
+                    format!("check of every file by name gives {} {:?} but check of args {:?} (files {:?}) gives {} {:?}", outcome_word(&reference.outcome), reference.codes(), v.args, v.files.iter().map(|f| &f.name).collect::<Vec<_>>(), outcome_word(&o.outcome), o.codes()),
+                ));
+            }
+        }
+    }
     for (v, o) in find("parts") {
         if matches!(o.outcome, Outcome::Panic(_)) {
             continue;
@@ -810,8 +841,8 @@ pub const SWEEP_RUNS: u64 = 1024;
 fn sweep_bytes(position: usize, byte: u8) -> Vec<u8> {
     let template: [&[u8]; 5] = [
         b"FUNCTION_BLOCK Sweep\n  VAR\n    s : STRING := 'a",
-        b"b';\n    cnt : INT;\n  END_VAR\n  (* c",
-        b"d *)\n  cnt ",
+        b"b';\n    cnt : INT;\n  END_VAR\n  cnt := 0; (* c",
+        b"d *) cnt := cnt + 2;\n  cnt ",
         b":= cn",
         b"t + 1;\nEND_FUNCTION_BLOCK\n",
     ];
@@ -833,7 +864,7 @@ pub fn gen_c14(rng: &mut Rng, thorough: bool, run_index: u64) -> WorldTrace {
         let world = World { decls: vec![], fault: None };
         let file = FileSpec { name: "sweep.st".into(), decls: vec![], enc: Enc::Utf8, raw: Some(sweep_bytes(position, byte)) };
         let mut variants = vec![];
-        for entry in [Entry::Check, Entry::Tokenize, Entry::ApiPush, Entry::Echo] {
+        for entry in [Entry::Check, Entry::Tokenize, Entry::ApiPush, Entry::Echo, Entry::LspTokens] {
             variants.push(Variant { role: "corrupt".into(), entry, files: vec![file.clone()], extras: vec![], args: vec!["ws/sweep.st".into()], dir_seed: 1, hash_seed: rng.next(), faults: vec![] });
         }
         return WorldTrace { prop: "C14".into(), world, variants, mode: format!("sweep:{}:{byte}", ["string", "comment", "between_tokens", "identifier"][position]) };
@@ -872,7 +903,7 @@ pub fn gen_c14(rng: &mut Rng, thorough: bool, run_index: u64) -> WorldTrace {
             let mut f = files.clone();
             assign_encodings(rng, &world, &mut f, true);
             let args = present(rng, &f);
-            let entry = *rng.pick(&[Entry::Check, Entry::Check, Entry::ApiPush, Entry::Tokenize, Entry::Echo]);
+            let entry = *rng.pick(&[Entry::Check, Entry::Check, Entry::ApiPush, Entry::Tokenize, Entry::Echo, Entry::LspTokens]);
             let mut v = Variant { role: "corrupt".into(), entry, files: f, extras: vec![], args, dir_seed: rng.next(), hash_seed: rng.next(), faults: vec![] };
             let fi = rng.below(v.files.len());
             let mut bytes = file_bytes(&world, &v.files[fi]);
@@ -1289,7 +1320,7 @@ pub fn execute(t: &WorldTrace, stats: &mut Stats) -> RunReport {
             };
             // fault-free executions and those with a static fault (missing path, dangling symlink, …)
             // are deterministic and can be repeated by the shipped binary; dynamic faults cannot
-            let repeatable = matches!(v.role.as_str(), "dir" | "files" | "mix" | "parts") || (v.role.starts_with("fault.static.") && v.faults.is_empty());
+            let repeatable = matches!(v.role.as_str(), "dir" | "files" | "mix" | "parts" | "files2" | "mix2") || (v.role.starts_with("fault.static.") && v.faults.is_empty());
             if !repeatable || matches!(o.outcome, Outcome::Panic(_)) {
                 continue;
             }
@@ -1351,7 +1382,7 @@ fn drop_decl(t: &WorldTrace, idx: usize) -> Option<WorldTrace> {
 
 /// Every file of the variant is named by an argument or lies in a named directory.
 pub fn covers_all_files(v: &Variant) -> bool {
-    if matches!(v.entry, Entry::ApiText | Entry::ApiPush) {
+    if matches!(v.entry, Entry::ApiText | Entry::ApiPush | Entry::LspTokens) {
         return true;
     }
     if v.role == "free" {
